@@ -215,6 +215,16 @@ def eval_case(case):
                         if not np.allclose(gl, got, rtol=64 * eps, atol=0):
                             issues.append(C.issue(f"C01:listinput:{be}", "python-list parameters give different rates than a float64 array "
                                                   f"(max rel diff {float(np.max(np.abs(gl - got) / np.abs(got))):.3g})", **ctx))
+        # batched or not: a batch-2 model evaluated on two distinct rows (full batch matrix: C10)
+        if case["settings"] == "all" and len(case["combo"]) <= 1:
+            mb = pyhf.Model(spec, poi_name="mu", batch_size=2)
+            rows = [v for _, v in pts[1:3]]
+            got = C.tolist(mb.expected_actualdata(C.tens([L.vector(mb.config, r) for r in rows])))
+            for ri, r in enumerate(rows):
+                ex = H.expected(spec, r)
+                for chn in mb.config.channels:
+                    ncmp += _cmp("batched_actual", got[ri][mb.config.channel_slices[chn]], ex[chn], [abs(x) + 1 for x in ex[chn]], eps, 4 * K, issues,
+                                 dict(labels=labels, backend=be, row=ri, channel=chn))
     finally:
         C.reset_backend()
     return dict(issues=issues, nontrivial=nontrivial, outcome=C_digest(digestv), comparisons=ncmp)
